@@ -1,0 +1,20 @@
+//go:build verif
+
+package services
+
+import (
+	"go.6river.tech/mmmbbb/ent"
+	"go.6river.tech/mmmbbb/grpc/pubsubpb"
+)
+
+// NewPublisherServerForVerif exposes the (unexported) Publisher implementation
+// so that a verification harness can call the handlers in-process.
+func NewPublisherServerForVerif(client *ent.Client) pubsubpb.PublisherServer {
+	return &publisherServer{client: client}
+}
+
+// NewSubscriberServerForVerif exposes the (unexported) Subscriber implementation
+// so that a verification harness can call the handlers in-process.
+func NewSubscriberServerForVerif(client *ent.Client) pubsubpb.SubscriberServer {
+	return &subscriberServer{client: client}
+}
